@@ -11,6 +11,7 @@ mod c01;
 mod c02;
 mod c03;
 mod c04;
+mod c05;
 mod c06;
 mod c07;
 mod c08;
@@ -46,6 +47,11 @@ const PROPS: &[PropDef] = &[PropDef {
     level: "exploration",
     run: c04::run,
     replay: c04::replay,
+}, PropDef {
+    id: "C05",
+    level: "exploration",
+    run: c05::run,
+    replay: c05::replay,
 }, PropDef {
     id: "C06",
     level: "exploration",
